@@ -537,6 +537,83 @@ impl Drv {
     }
 }
 
+/// Every option setter of the C interface must take effect: two configurations that differ in one option only, set
+/// through the C setters, two contexts, the same keys - what the C accessors hand out must differ. (The shadow copies of
+/// the driver are taken from the same objects, so a setter that silently does nothing would otherwise go unnoticed.)
+unsafe fn setter_probes(d: &mut Drv) {
+    const K: u16 = 41120; const A: u16 = 41110; const I: u16 = 41118; const U: u16 = 41130; const R: u16 = 41127;
+    const GT: u16 = 102; const QUOTE: u16 = 100; const KP1: u16 = 79;
+    // (setter name, layout index, options that are on in both configurations, keys)
+    let probes: [(&'static str, usize, &[&'static str], &[(u16, u8)]); 11] = [
+        ("phonetic_suggestion", 0, &[], &[(A, 0)]),
+        ("suggestion_include_english", 0, &["phonetic_suggestion"], &[(A, 0)]),
+        ("smart_quote", 0, &["phonetic_suggestion"], &[(QUOTE, 0), (A, 0)]),
+        ("ansi_encoding", 0, &[], &[(K, 0)]),
+        ("fixed_suggestion", 1, &[], &[(K, 0)]),
+        ("fixed_auto_vowel", 1, &[], &[(A, 0)]),
+        ("fixed_auto_chandra", 1, &[], &[(K, 0), (GT, 0), (A, 0)]),
+        ("fixed_traditional_kar", 1, &[], &[(K, 0), (U, 0)]),
+        ("fixed_old_reph", 2, &[], &[(K, 0), (A, 0), (R, 2)]),
+        ("fixed_numpad", 1, &[], &[(KP1, 0)]),
+        ("fixed_old_kar_order", 1, &[], &[(I, 0)]),
+    ];
+    let set = |d: &mut Drv, c: *mut Config, name: &str, on: bool| match name {
+        "phonetic_suggestion" => { d.call("riti_config_set_phonetic_suggestion"); riti_config_set_phonetic_suggestion(c, on) }
+        "suggestion_include_english" => { d.call("riti_config_set_suggestion_include_english"); riti_config_set_suggestion_include_english(c, on) }
+        "smart_quote" => { d.call("riti_config_set_smart_quote"); riti_config_set_smart_quote(c, on) }
+        "ansi_encoding" => { d.call("riti_config_set_ansi_encoding"); riti_config_set_ansi_encoding(c, on) }
+        "fixed_suggestion" => { d.call("riti_config_set_fixed_suggestion"); riti_config_set_fixed_suggestion(c, on) }
+        "fixed_auto_vowel" => { d.call("riti_config_set_fixed_auto_vowel"); riti_config_set_fixed_auto_vowel(c, on) }
+        "fixed_auto_chandra" => { d.call("riti_config_set_fixed_auto_chandra"); riti_config_set_fixed_auto_chandra(c, on) }
+        "fixed_traditional_kar" => { d.call("riti_config_set_fixed_traditional_kar"); riti_config_set_fixed_traditional_kar(c, on) }
+        "fixed_old_reph" => { d.call("riti_config_set_fixed_old_reph"); riti_config_set_fixed_old_reph(c, on) }
+        "fixed_numpad" => { d.call("riti_config_set_fixed_numpad"); riti_config_set_fixed_numpad(c, on) }
+        _ => { d.call("riti_config_set_fixed_old_kar_order"); riti_config_set_fixed_old_kar_order(c, on) }
+    };
+    const ALL: [&str; 11] = ["phonetic_suggestion", "suggestion_include_english", "smart_quote", "ansi_encoding", "fixed_suggestion", "fixed_auto_vowel", "fixed_auto_chandra",
+        "fixed_traditional_kar", "fixed_old_reph", "fixed_numpad", "fixed_old_kar_order"];
+    for (name, li, base_on, keys) in probes {
+        let mut seen: Vec<String> = vec![];
+        for on in [false, true] {
+            d.call("riti_config_new");
+            let c = riti_config_new();
+            let l = CString::new(d.layouts[li].clone()).unwrap();
+            d.call("riti_config_set_layout_file");
+            riti_config_set_layout_file(c, l.as_ptr());
+            let dd = CString::new(d.data_dirs[0].clone()).unwrap();
+            d.call("riti_config_set_database_dir");
+            riti_config_set_database_dir(c, dd.as_ptr());
+            // every option is set explicitly (defaults do not matter); the probed one last
+            for o in ALL {
+                if o != name {
+                    set(d, c, o, base_on.contains(&o));
+                }
+            }
+            set(d, c, name, on);
+            d.call("riti_context_new_with_config");
+            let ctx = riti_context_new_with_config(c);
+            let mut shown = String::new();
+            for &(k, m) in keys {
+                d.call("riti_get_suggestion_for_key");
+                let s = riti_get_suggestion_for_key(ctx, k, m, 0);
+                let sh = shadow_of(&*s, true);
+                shown = format!("{:?}|{:?}|{:?}|{:?}", sh.lonely, sh.single, sh.list, sh.pre);
+                d.call("riti_suggestion_free");
+                riti_suggestion_free(s);
+            }
+            d.call("riti_context_free");
+            riti_context_free(ctx);
+            d.call("riti_config_free");
+            riti_config_free(c);
+            seen.push(shown);
+        }
+        d.comparisons += 1;
+        if seen[0] == seen[1] {
+            d.fail(format!("riti_config_set_{name}: the option has no effect ({} with it off and on)", seen[0]));
+        }
+    }
+}
+
 /// Deterministic pass over every accessor x suggestion variant x ANSI on/off (sized for Miri): the paths on which strings
 /// and suggestions cross the boundary are all taken at least once, whatever the random sessions happen to draw.
 unsafe fn scripted(d: &mut Drv) {
@@ -826,6 +903,9 @@ fn main() {
         };
         unsafe {
             if s == 0 && a.iter().any(|x| x == "scripted") {
+                if !small {
+                    setter_probes(&mut d);
+                }
                 scripted(&mut d);
             }
             let mut n = 0u64;
